@@ -52,7 +52,7 @@ def lib_rs_nostd(ids):
     return s
 
 
-def build_verdicts(name, rows, nshards=8, nostd=False):
+def build_verdicts(name, rows, nshards=8, nostd=False, also_tests=False):
     """rows: {id: obj}. Build every declaration against /repo; returns {id: ("accepted"|"rejected", messages)}."""
     groups = {}
     for k, obj in rows.items():
@@ -74,6 +74,10 @@ def build_verdicts(name, rows, nshards=8, nostd=False):
         by_feats.setdefault(tuple(c.features), []).append(c)
     for feats, cs in sorted(by_feats.items()):
         build_many(cs)
+    if also_tests:
+        # the same crates once more as test targets: the generated #[cfg(test)] modules are part of the expansion
+        for feats, cs in sorted(by_feats.items()):
+            build_many(cs, tests=True)
     out = {}
     for c in crates:
         for k in c.files:
@@ -234,7 +238,7 @@ def check_C15():
         rest = [k for k in ids if k not in set(keep)]
         ids = sorted(keep + rng.sample(rest, 900 - min(900, len(keep))))
     sel = {k: sel[k] for k in ids}
-    verdicts = build_verdicts("c15", sel, nostd=True)
+    verdicts = build_verdicts("c15", sel, nostd=True, also_tests=True)
     tdir = ensure_dir(os.path.join(WORK, "trace", "c15"))
     tp, dp = os.path.join(tdir, "trace.ndjson"), os.path.join(tdir, "decls.json")
     with open(tp, "w") as f:
